@@ -26,6 +26,7 @@
 #include <sys/time.h>
 #include <sys/stat.h>
 #include <time.h>
+#include <set>
 
 using namespace tbox;
 
@@ -501,6 +502,147 @@ void one_case(uint64_t idx, vh::Rng &r) {
     }
 }
 
+
+// ---------------------------------------------------------------------------------------------------------------------
+// mode "disable-race": disable() while other threads are inside log calls. Every call that had RETURNED before disable()
+// was entered must be in the sink when disable() returns; a call entered after disable() returned must not be; calls
+// that overlap disable() may or may not be; per thread the records are in call order, whole and unique; no crash, no hang.
+void race_case(uint64_t idx, vh::Rng &r) {
+    static const int dmax[] = {0, 20, 100, 300};
+    vc::set_delays(vh::mix(vh::st().args.seed, idx), (int)r.below(10), r.pick(dmax));
+    vh::Sig sig;
+    int nthreads = 1 + (int)r.below(5);
+    int per = 150 + (int)r.below(1200);
+    int kind = (int)r.below(4);                      // 0 recording sink, 1..3 AsyncFileSink
+    log::AsyncSink::Config pcfg;
+    { static const size_t bs[] = {64, 100, 1024, 10240}; pcfg.buff_size = r.pick(bs); pcfg.buff_min_num = 1 + r.below(3); pcfg.buff_max_num = std::max<size_t>(2, pcfg.buff_min_num + r.below(18));
+      static const size_t iv[] = {1, 3, 10, 100}; pcfg.interval = r.pick(iv); }
+    static const size_t fmax[] = {200, 4096, 1 << 20};
+    size_t file_max = r.pick(fmax);
+    int main_pause_us = (int)r.below(r.chance(1, 3) ? 200 : 4000);
+    size_t maxtext = r.chance(1, 4) ? 600 : 60;
+    sig.add(nthreads); sig.add(per); sig.add(kind); sig.add(pcfg.buff_size); sig.add(pcfg.interval); sig.add(file_max); sig.add(main_pause_us);
+    std::string workdir = vh::st().args.out.empty() ? "/tmp" : vh::st().args.out;
+    std::string logdir = workdir + vh::fmt("/c09r_%d_%llu", (int)getpid(), (unsigned long long)idx);
+    vh::st().case_desc = vh::fmt("disable-race threads=%d calls<=%d sink=%s pipe{buf=%zu,min=%zu,max=%zu,ival=%zu} file_max=%zu pause=%dus", nthreads, per, kind ? "file" : "recording",
+                                 pcfg.buff_size, pcfg.buff_min_num, pcfg.buff_max_num, pcfg.interval, file_max, main_pause_us);
+    std::unique_ptr<RecSink> rec;
+    std::unique_ptr<log::AsyncFileSink> fsink;
+    log::Sink *sink = nullptr;
+    if (kind == 0) { rec.reset(new RecSink); sink = rec.get(); }
+    else { fsink.reset(new log::AsyncFileSink); fsink->setConfig(pcfg); fsink->setFilePath(logdir); fsink->setFilePrefix("c09"); fsink->setFileMaxSize(file_max); sink = fsink.get(); }
+    sink->setLevel(LOG_LEVEL_MAX);
+    sink->enable();
+
+    std::atomic<uint64_t> clk{1};
+    std::atomic<bool> stop{false};
+    struct TCall { uint64_t call = 0, ret = 0; };
+    std::vector<std::vector<TCall>> calls(nthreads);
+    for (auto &v : calls) v.resize(per);
+    std::vector<std::atomic<int>> made(nthreads);
+    for (auto &m : made) m.store(0);
+    std::vector<std::thread> th;
+    for (int t = 0; t < nthreads; ++t) {
+        th.emplace_back([&, t] {
+            vh::Rng lr(vh::mix(idx, 1000 + t));
+            for (int i = 0; i < per && !stop.load(std::memory_order_acquire); ++i) {
+                std::string text = make_text(t, i, 12 + lr.below(maxtext));
+                calls[t][i].call = clk.fetch_add(1);
+                LogPrintfFunc(kModules[t & 3], kFuncs[i & 3], kFiles[i & 3], 100 + i, LOG_LEVEL_INFO, 0, text.c_str());
+                calls[t][i].ret = clk.fetch_add(1);
+                made[t].store(i + 1, std::memory_order_release);
+                if ((i & 15) == 15 && lr.chance(1, 3)) vc::sleep_us((long)lr.below(60));
+            }
+        });
+    }
+    // let some calls complete first (otherwise "returned before disable" would be empty)
+    while (made[0].load(std::memory_order_acquire) < 3) std::this_thread::yield();
+    vc::sleep_us(main_pause_us);
+    uint64_t d0 = clk.fetch_add(1);
+    sink->disable();
+    uint64_t d1 = clk.fetch_add(1);
+    // read back at once, while the threads are still logging into a front end that no longer has this sink
+    std::vector<Rec> recs;
+    bool bad = false;
+    if (kind == 0) recs = rec->recs;
+    else {
+        struct Ent { std::string ts; long suf; std::string name; };
+        std::vector<Ent> ents;
+        DIR *d = opendir(logdir.c_str());
+        if (d) {
+            while (dirent *e = readdir(d)) {
+                std::string n = e->d_name;
+                if (n.find("c09.") != 0 || n.find("latest") != std::string::npos) continue;
+                Ent en; en.name = n; en.ts = n.substr(4, 15);
+                size_t lp = n.find(".log");
+                en.suf = (lp != std::string::npos && lp + 4 < n.size()) ? atol(n.c_str() + lp + 5) : 0;
+                ents.push_back(en);
+            }
+            closedir(d);
+        }
+        std::sort(ents.begin(), ents.end(), [](const Ent &a, const Ent &b) { return a.ts != b.ts ? a.ts < b.ts : a.suf < b.suf; });
+        for (auto &e : ents) {
+            std::string content = slurp(logdir + "/" + e.name);
+            size_t p = 0;
+            while (p < content.size() && !bad) {
+                size_t q = content.find('\n', p);
+                if (q == std::string::npos) { vh::viol("disable-race/file-sink/record-split-or-incomplete", vh::fmt("file %s ends in the middle of a line: '%.80s'", e.name.c_str(), content.c_str() + p)); bad = true; break; }
+                Rec rr;
+                std::string ln = content.substr(p, q - p);
+                if (!parse_line(ln, rr)) { vh::viol("disable-race/file-sink/record-corrupt", vh::fmt("file %s: line does not parse as one record (%zu bytes): '%.160s'", e.name.c_str(), ln.size(), ln.c_str())); bad = true; break; }
+                recs.push_back(std::move(rr));
+                p = q + 1;
+            }
+        }
+    }
+    vc::sleep_us(300);
+    stop.store(true, std::memory_order_release);
+    for (auto &t : th) t.join();
+    fsink.reset();
+    rm_rf(logdir);
+
+    const char *sname = kind ? "file-sink" : "recording-sink";
+    uint64_t n_before = 0, n_overlap = 0, n_after = 0, n_seen_overlap = 0;
+    if (!bad) {
+        std::vector<std::vector<int>> seen(nthreads);
+        for (auto &rr : recs) {
+            int t = -1, q = -1; size_t l = 0;
+            if (sscanf(rr.text.c_str(), "T%d:%d:%zu:", &t, &q, &l) != 3 || t < 0 || t >= nthreads || q < 0 || q >= per || rr.text != make_text(t, q, l)) {
+                vh::viol(std::string("disable-race/") + sname + "/foreign-or-damaged-record", vh::fmt("record text '%.80s' is not the text of any call", rr.text.c_str())); bad = true; break;
+            }
+            seen[t].push_back(q);
+        }
+        for (int t = 0; t < nthreads && !bad; ++t) {
+            for (size_t i = 1; i < seen[t].size(); ++i)
+                if (seen[t][i] <= seen[t][i - 1]) { vh::viol(std::string("disable-race/") + sname + (seen[t][i] == seen[t][i - 1] ? "/record-duplicated" : "/record-order"), vh::fmt("thread %d: record of call %d follows record of call %d", t, seen[t][i], seen[t][i - 1])); bad = true; break; }
+            if (bad) break;
+            std::set<int> have(seen[t].begin(), seen[t].end());
+            int m = made[t].load();
+            for (int i = 0; i < m; ++i) {
+                const TCall &c = calls[t][i];
+                bool in = have.count(i) != 0;
+                if (c.ret < d0) { ++n_before; if (!in) { vh::viol(std::string("disable-race/") + sname + "/record-lost", vh::fmt("thread %d call %d had returned (tick %llu) before disable() was entered (tick %llu) but its record is not in the sink when disable() returns (%zu records of that thread present)", t, i, (unsigned long long)c.ret, (unsigned long long)d0, seen[t].size())); bad = true; break; } }
+                else if (c.call > d1) { ++n_after; if (in) { vh::viol(std::string("disable-race/") + sname + "/record-after-disable-returned", vh::fmt("thread %d call %d was entered (tick %llu) after disable() returned (tick %llu) yet its record is in the sink", t, i, (unsigned long long)c.call, (unsigned long long)d1)); bad = true; break; } }
+                else { ++n_overlap; if (in) ++n_seen_overlap; }
+            }
+        }
+    }
+    vh::counter("race_disable_cases");
+    vh::counter(kind ? "race_disable_cases_file_sink" : "race_disable_cases_recording_sink");
+    vh::counter("race_disable_calls_returned_before_disable", n_before);
+    vh::counter("race_disable_calls_overlapping_disable", n_overlap);
+    vh::counter("race_disable_overlapping_calls_recorded", n_seen_overlap);
+    vh::counter("race_disable_calls_entered_after_disable_returned", n_after);
+    vh::counter("verif_point_delays", vc::dcfg().delays.exchange(0));
+    vh::note_case(sig.h, nthreads >= 2 && n_overlap > 0);
+    if (vh::want_sample()) vh::sample("{\"config\":" + vh::jstr(vh::st().case_desc) + vh::fmt(",\"returned_before\":%llu,\"overlapping\":%llu,\"overlapping_recorded\":%llu,\"entered_after\":%llu}", (unsigned long long)n_before, (unsigned long long)n_overlap, (unsigned long long)n_seen_overlap, (unsigned long long)n_after));
+}
+
+void any_case(uint64_t idx, vh::Rng &r) {
+    if (vh::st().args.mode == "disable-race") race_case(idx, r);
+    else one_case(idx, r);
+}
+
 }  // namespace
 
-int main(int argc, char **argv) { return vh::run(argc, argv, one_case); }
+int main(int argc, char **argv) { return vh::run(argc, argv, any_case); }
